@@ -416,3 +416,72 @@ impl<const K: u32> Payload for Zst<K> {
     fn set(&mut self, _val: u64) {}
 }
 common_impls!(Zst);
+
+// ---------------------------------------------------------------------------------------------
+// Plain: identity in memory, but a bare number on the wire (no tag, no checksum). Two `Plain`
+// resources have interchangeable encodings, so a (de)serializer that mixes up positions swaps
+// their values silently instead of failing a tag check -- visible to the resource oracle (C15).
+
+pub struct Plain<const K: u32> {
+    h: Hdr,
+}
+impl<const K: u32> Plain<K> {
+    fn build(val: u64, how: Born) -> Self {
+        Plain { h: Hdr::new(K, val, how) }
+    }
+}
+impl<const K: u32> Clone for Plain<K> {
+    fn clone(&self) -> Self {
+        fuse::hit(Cb::Clone);
+        let o = self.h.obs(K, "Clone");
+        Self::build(o.val, Born::Clone)
+    }
+}
+impl<const K: u32> Drop for Plain<K> {
+    fn drop(&mut self) {
+        self.h.dropped(K);
+        fuse::hit(Cb::Drop);
+    }
+}
+impl<const K: u32> Payload for Plain<K> {
+    const K: u32 = K;
+    const KIND: Kind = Kind::Med;
+    const IDENT: bool = true;
+    fn norm(val: u64) -> u64 {
+        val
+    }
+    fn make(val: u64) -> Self {
+        Self::build(val, Born::New)
+    }
+    fn obs(&self, ctx: &'static str) -> Obs {
+        self.h.obs(K, ctx)
+    }
+    fn set(&mut self, val: u64) {
+        self.h.set(K, val)
+    }
+}
+impl<const K: u32> fmt::Debug for Plain<K> {
+    fn fmt(&self, f: &mut fmt::Formatter<'_>) -> fmt::Result {
+        fuse::hit(Cb::Debug);
+        write!(f, "Plain<{}>({})", K, <Self as Payload>::obs(self, "Debug").val)
+    }
+}
+impl<const K: u32> PartialEq for Plain<K> {
+    fn eq(&self, other: &Self) -> bool {
+        fuse::hit(Cb::Eq);
+        <Self as Payload>::obs(self, "PartialEq").val == <Self as Payload>::obs(other, "PartialEq").val
+    }
+}
+impl<const K: u32> serde::Serialize for Plain<K> {
+    fn serialize<S: serde::Serializer>(&self, s: S) -> Result<S::Ok, S::Error> {
+        fuse::hit(Cb::Ser);
+        s.serialize_u64(<Self as Payload>::obs(self, "Serialize").val)
+    }
+}
+impl<'de, const K: u32> serde::Deserialize<'de> for Plain<K> {
+    fn deserialize<D: serde::Deserializer<'de>>(d: D) -> Result<Self, D::Error> {
+        fuse::hit(Cb::De);
+        let v = <u64 as serde::Deserialize>::deserialize(d)?;
+        Ok(Self::build(v, Born::Deser))
+    }
+}
